@@ -633,16 +633,18 @@ func runC14(c *Ctx) {
 		writer := c.P.Method("service", "connection", "write")
 		okS, okR := false, false
 		if reader != nil {
-			for _, b := range reader.Blocks {
-				for _, ins := range b.Instrs {
-					if s, isS := ins.(*ssa.Send); isS {
-						if _, f, _ := fieldLoad(s.Chan); f == "reissuePackChan" {
-							// under Command == 0x8003
-							for _, b2 := range reader.Blocks {
-								if iff, isIf := b2.Instrs[len(b2.Instrs)-1].(*ssa.If); isIf {
-									if cmp, isCmp := iff.Cond.(*ssa.BinOp); isCmp && cmp.Op == token.EQL {
-										if k, isK := constInt(cmp.Y); isK && k == 0x8003 && b2.Succs[0].Dominates(b) {
-											okS = true
+			for _, rf := range c.familyOf(reader) { // the reader and the helpers its loop body may be split into
+				for _, b := range rf.Blocks {
+					for _, ins := range b.Instrs {
+						if s, isS := ins.(*ssa.Send); isS {
+							if _, f, _ := fieldLoad(s.Chan); f == "reissuePackChan" {
+								// under Command == 0x8003
+								for _, b2 := range rf.Blocks {
+									if iff, isIf := b2.Instrs[len(b2.Instrs)-1].(*ssa.If); isIf {
+										if cmp, isCmp := iff.Cond.(*ssa.BinOp); isCmp && cmp.Op == token.EQL {
+											if k, isK := constInt(cmp.Y); isK && k == 0x8003 && b2.Succs[0].Dominates(b) {
+												okS = true
+											}
 										}
 									}
 								}
